@@ -13,6 +13,14 @@ CLAIMED = {
          "as C01.", "Lean 4 proof over model + correspondence + spec oracle"),
  "C05": ("proof", "Lean theorems on argument/literal coercion + correspondence + metamorphic literal/variable/default cases + independent CoerceArgumentValues oracle. One known finding (variables nested in list/object literals are untyped) is listed and excluded by a class predicate.",
          "as C01; typed-delivery theorem is partial (nested variables).", "Lean 4 proof over model + correspondence + metamorphic oracle"),
+ "C08": ("proof", "Lean theorems over the task-tree semantics for EVERY tree, pure answer function and schedule: result independent of the schedule and errors a permutation (schedule_independent), bounded length and no stuck state (termination), only awaited resolvers complete and each is consumed once, sequential = concurrent denotation; + correspondence: the real engine is driven by a controlled event loop under first/last/random/exhaustive schedules on 4-8 concurrency configurations and must show the model's awaited-gate sets at every quiescent point and the model's response.",
+         "asyncio abstracted to 'any awaited resolver may complete next'; the request's task tree (Impl/ExecT.lean) is hand-written and tied by correspondence; tree vs direct executor model checked per request (not a theorem).", "Lean 4 proof over task-tree semantics + schedule-level correspondence"),
+ "C09": ("proof", "Lean theorems: while a root field (with its whole sub-selection) is in flight only its own resolvers can complete (next_root_not_started), serial denotation, nullable failure continues / non-null failure aborts and nulls data, root keys in document order; + correspondence on mutation requests under all schedule policies with an oracle on the real start/finish event log.",
+         "as C08.", "Lean 4 proof over task-tree semantics + schedule-level correspondence"),
+ "C15": ("proof", "Lean theorem: for a family of requests stepped in any interleaving, each finished request has its solo result and (up to order) its solo errors (isolation) — proved of the model, where requests share no mutable state by construction; the differential check runs 2-5 real requests in flight under random interleavings and compares each with its solo run on an engine that never saw concurrent traffic, then probes the engine afterwards. PARTIAL: absence of shared mutable request state in the Python is established by the differential run, not by proof.",
+         "as C08; partial.", "Lean 4 proof over a product of task trees + differential interleaving check"),
+ "C18": ("proof", "Lean theorems over the request envelope (Impl/Engine.lean) for every parser outcome, operation name, variables and total error coercer: `errors` present iff non-empty, coercer applied exactly once per error in order, refused requests and failed operation selection run nothing and null data, data null only with errors; + shape oracle on real responses for valid, mutated, junk and byte inputs, odd variables objects, and counting/rewriting error coercers. PARTIAL: text -> parser outcome is outside the model (native parser absent).",
+         "parser substitute; total error coercers only.", "Lean 4 proof over envelope model + response-shape oracle"),
  "C10": ("proof", "Lean theorems (wire type + same value of result coercion, exact accepted input kinds, literal = variable, idempotence, for Int/Float/String/Boolean/ID) about definitions regenerated from the repository's scalar sources on every run; translator validated against the real functions on a boundary table and random values; Date/Time/DateTime by evaluation only.",
          "Trusted: Lean kernel; py2lean translator (validated per run); Base/PyPrims.lean (validated by the same corpus); CPython float(str) as oracle; Date/Time/DateTime not modelled (partial).", "Lean 4 proof over a model regenerated from source (translator) + translation validation"),
 }
